@@ -15,8 +15,8 @@ R-SAUCESTR-LEN : the fixed-width field type keeps its contents within the field:
                  analysis specialised to the const parameters.  Otherwise append_to writes more than LEN bytes and the
                  record is no longer 128 bytes long.
 R-SAUCE-WIDTH  : `Buffer::set_sauce` may replace the record's width by a default only for the widths the property itself lets
-                 it treat so (0 and more than 1000): on every control-flow edge into a block that stores a constant into the
-                 `width` of the size taken from the record, the interval analysis must exclude every width in 1..=1000.
+                 it treat so (0 and more than 1000): analysed with the width of the record parameter assumed to lie in
+                 1..=1000 on entry, every block that stores a constant into a `width` field must be unreachable.
 R-SAUCE-EXACT  : every shift / add / mul on header bytes in `SauceData::extract` whose result type is narrower than 64 bits is
                  value preserving (no wrap), decided with the interval analysis."""
 import re
@@ -633,35 +633,37 @@ LEGAL_WIDTH = (1, 1000)       # the property's own quantifier: widths 1..=1000 r
 
 
 def sauce_width(chk, f, ip):
+    from analysis.absdom import State
     b = f.bodies.get(SETTER)
     if not chk.anchor(b is not None, "R-SAUCE-WIDTH", "anchor missing: Buffer::set_sauce"):
         return
-    an = Analyzer(f, interproc=ip)
-    res = an.analyze(b, collect=False)
-    n = 0
+    # the stores in question: a constant written into a `width` field
+    sites = []
     for bi, k, s in b.stmts():
         if s["k"] != "assign" or s["rv"]["k"] != "use" or "const" not in s["rv"]["a"]:
             continue
         proj = s["p"].get("p") or []
         if not proj or proj[-1] == "*" or proj[-1][0] != "f" or proj[-1][2] != "width":
             continue
-        n += 1
-        edges = [(p, bi) for p in b.pred[bi] if (p, bi) in res.edge_states]
-        for e in edges:
-            st = res.edge_states[e]
-            if st is None or st.bottom:
-                continue
-            c = an.canon(st, s["p"])
-            ok = False
-            rng = None
-            if c is not None:
-                sv = st.sym.get((c[0], c[1]))
-                val = sv if (sv is not None and sv[0] in ("n", "iv")) else ("n", ("v", c[0], c[1]), 0)
-                rng = st.val_iv(val)
-                ok = (rng[1] is not None and rng[1] < LEGAL_WIDTH[0]) or (rng[0] is not None and rng[0] > LEGAL_WIDTH[1])
-            chk.obligation(ok)
-            if not ok:
-                chk.finding("set_sauce|width-default|edge", rule="R-SAUCE-WIDTH", where="%s:%s" % (b.file, s.get("line")), fn="Buffer::set_sauce",
-                            what="the record's width is replaced by the constant %s on a path where it may lie in %d..=%d (interval on that path: %s): such a width does not survive loading" % (
-                                s["rv"]["a"]["const"].get("val"), LEGAL_WIDTH[0], LEGAL_WIDTH[1], rng))
-    chk.floor("R-SAUCE-WIDTH", "constant stores into the record size's width", n, 1)
+        sites.append((bi, k, s))
+    chk.floor("R-SAUCE-WIDTH", "constant stores into the record size's width", len(sites), 1)
+    # the record handed in: the parameter of type Option<SauceData>; its width is assumed to be a legal one on entry
+    par = [i for i in range(1, b.argc + 1) if "SauceData" in b.tys(i) and "Option" in b.tys(i)]
+    if not chk.anchor(len(par) == 1, "R-SAUCE-WIDTH", "anchor missing: the Option<SauceData> parameter of set_sauce"):
+        return
+    wt = ("v", par[0], (("dc", "Some"), "0", "buffer_size", "width"))
+    st0 = State()
+    st0.set_iv(wt, LEGAL_WIDTH[0], LEGAL_WIDTH[1])
+    an = Analyzer(f, interproc=ip)
+    res = an.analyze(b, entry=st0, collect=False)
+    # the assumption must have reached the code: some state after entry mentions the term or an alias of it
+    used = any(st is not None and not st.bottom and any(v[0] == "n" and v[1] == wt for v in st.sym.values()) for st in res.in_states.values())
+    chk.anchor(used, "R-SAUCE-WIDTH", "the width of the record parameter is read by set_sauce (the entry assumption reaches the code)")
+    for bi, k, s in sites:
+        st = res.in_states.get(bi)
+        ok = st is None or st.bottom
+        chk.obligation(ok)
+        if not ok:
+            chk.finding("set_sauce|width-default", rule="R-SAUCE-WIDTH", where="%s:%s" % (b.file, s.get("line")), fn="Buffer::set_sauce",
+                        what="for a record whose width lies in %d..=%d the store of the constant %s into the size's width is still reachable: such a width does not survive loading" % (
+                            LEGAL_WIDTH[0], LEGAL_WIDTH[1], s["rv"]["a"]["const"].get("val")))
